@@ -152,6 +152,8 @@ type World struct {
 	FaultSite string
 	Fired     bool
 	mu        sync.Mutex
+	mm        sync.Mutex
+	NoCollect bool
 }
 
 func NewWorld(opts map[string]string) *World {
@@ -167,7 +169,18 @@ func NewWorld(opts map[string]string) *World {
 }
 
 func (w *World) Counts() map[string]int { return w.counts }
+
+// map accessors: histories for the concurrency engine run operations of different trees from
+// different goroutines, so the harness's own bookkeeping is locked
+func (w *World) getTree(i int) *treeT       { w.mm.Lock(); defer w.mm.Unlock(); return w.Trees[i] }
+func (w *World) setTree(i int, t *treeT)    { w.mm.Lock(); w.Trees[i] = t; w.mm.Unlock() }
+func (w *World) getRoot(i int) *mast.Root   { w.mm.Lock(); defer w.mm.Unlock(); return w.Roots[i] }
+func (w *World) setRoot(i int, r *mast.Root) { w.mm.Lock(); w.Roots[i] = r; w.mm.Unlock() }
+func (w *World) getCur(i int) *mast.Cursor  { w.mm.Lock(); defer w.mm.Unlock(); return w.Curs[i] }
+func (w *World) setCur(i int, c *mast.Cursor) { w.mm.Lock(); w.Curs[i] = c; w.mm.Unlock() }
 func (w *World) Store(i int) *Store      { return w.store(i) }
+func (w *World) GetRoot(i int) *mast.Root { return w.getRoot(i) }
+func (w *World) GetTree(i int) *treeT    { return w.getTree(i) }
 func (t *treeT) StoreID() int            { return t.store }
 func (t *treeT) Kind() int               { return t.kind }
 func (w *World) ResetCounts()           { w.counts = map[string]int{}; w.Fired = false; w.FaultSite = "" }
@@ -215,6 +228,8 @@ func callSite() string {
 }
 
 func (w *World) store(i int) *Store {
+	w.mm.Lock()
+	defer w.mm.Unlock()
 	s, ok := w.StoresM[i]
 	if !ok {
 		s = &Store{m: map[string][]byte{}, prefix: fmt.Sprintf("store%d", i), w: w}
@@ -429,6 +444,8 @@ func (r Result) Line(idx int) string {
 func (w *World) collect() ([]string, []string) {
 	var ls, ss []string
 	var ids []int
+	w.mm.Lock()
+	defer w.mm.Unlock()
 	for i := range w.StoresM {
 		ids = append(ids, i)
 	}
@@ -452,13 +469,45 @@ func (w *World) Exec(line string) (res Result) {
 		if r := recover(); r != nil {
 			res = Result{Outcome: "panic", ErrText: fmt.Sprint(r)}
 		}
-		res.Loads, res.Stores = w.collect()
+		if !w.NoCollect {
+			res.Loads, res.Stores = w.collect()
+		}
 	}()
 	ok := func(p string) Result { return Result{Outcome: "ok", Payload: p} }
 	fail := func(err error) Result { return Result{Outcome: "err", ErrText: err.Error()} }
 	bad := Result{Outcome: "bad"}
-	tree := func(s string) *treeT { return w.Trees[atoi(s)] }
+	tree := func(s string) *treeT { return w.getTree(atoi(s)) }
 	switch toks[0] {
+	case "layer":
+		k, err := w.parseKey(toks[1], -1)
+		if err != nil {
+			return bad
+		}
+		bf, _ := strconv.ParseUint(toks[2], 10, 64)
+		l, err := mast.DefaultLayer(json.Marshal)(k, uint(bf))
+		if err != nil {
+			return fail(err)
+		}
+		return ok(fmt.Sprintf("n:%d", l))
+	case "cmp":
+		a, err := w.parseKey(toks[1], -1)
+		if err != nil {
+			return bad
+		}
+		b, err := w.parseKey(toks[2], -1)
+		if err != nil {
+			return bad
+		}
+		c, err := mast.DefaultKeyCompare(json.Marshal)(a, b)
+		if err != nil {
+			return fail(err)
+		}
+		if c < 0 {
+			c = -1
+		} else if c > 0 {
+			c = 1
+		}
+		return ok(fmt.Sprintf("n:%d", c))
 	case "new":
 		t, s, bf, kind := atoi(toks[1]), atoi(toks[2]), atoi(toks[3]), atoi(toks[5])
 		var opt *mast.CreateRemoteOptions
@@ -475,7 +524,7 @@ func (w *World) Exec(line string) (res Result) {
 		if err != nil {
 			return fail(err)
 		}
-		w.Trees[t] = &treeT{m, kind, s}
+		w.setTree(t, &treeT{m, kind, s})
 		return ok("")
 	case "ins", "del":
 		t := tree(toks[1])
@@ -572,7 +621,7 @@ func (w *World) Exec(line string) (res Result) {
 		if err != nil {
 			return fail(err)
 		}
-		w.Trees[atoi(toks[2])] = &treeT{&m2, t.kind, t.store}
+		w.setTree(atoi(toks[2]), &treeT{&m2, t.kind, t.store})
 		return ok("")
 	case "dirty":
 		t := tree(toks[1])
@@ -604,11 +653,11 @@ func (w *World) Exec(line string) (res Result) {
 			}
 			r = &r2
 		}
-		w.Roots[atoi(toks[2])] = r
+		w.setRoot(atoi(toks[2]), r)
 		b, _ := json.Marshal(r)
 		return ok("r:" + string(b))
 	case "load":
-		r := w.Roots[atoi(toks[1])]
+		r := w.getRoot(atoi(toks[1]))
 		if r == nil {
 			return bad
 		}
@@ -617,10 +666,10 @@ func (w *World) Exec(line string) (res Result) {
 		if err != nil {
 			return fail(err)
 		}
-		w.Trees[atoi(toks[2])] = &treeT{m, kind, s}
+		w.setTree(atoi(toks[2]), &treeT{m, kind, s})
 		return ok("")
 	case "rootset":
-		r := w.Roots[atoi(toks[2])]
+		r := w.getRoot(atoi(toks[2]))
 		if r == nil {
 			return bad
 		}
@@ -644,12 +693,12 @@ func (w *World) Exec(line string) (res Result) {
 		if toks[7] == "1" {
 			r2.Link = nil
 		}
-		w.Roots[atoi(toks[1])] = &r2
+		w.setRoot(atoi(toks[1]), &r2)
 		b, _ := json.Marshal(&r2)
 		return ok("r:" + string(b))
 	case "corrupt":
 		s := w.store(atoi(toks[1]))
-		r := w.Roots[atoi(toks[2])]
+		r := w.getRoot(atoi(toks[2]))
 		if r == nil || r.Link == nil || !s.Has(*r.Link) {
 			return bad
 		}
@@ -679,10 +728,10 @@ func (w *World) Exec(line string) (res Result) {
 		if err != nil {
 			return fail(err)
 		}
-		w.Curs[atoi(toks[2])] = c
+		w.setCur(atoi(toks[2]), c)
 		return ok("")
 	case "cmin", "cmax", "cfwd", "cbwd", "cceil", "cget":
-		c := w.Curs[atoi(toks[1])]
+		c := w.getCur(atoi(toks[1]))
 		if c == nil {
 			return bad
 		}
